@@ -31,6 +31,8 @@
 #include <utility>
 #include <vector>
 
+#include <sys/time.h>
+
 #include "common.hpp"
 
 #define private public
@@ -240,10 +242,20 @@ static bool make_session(const std::vector<std::string>& t) {
     return true;
 }
 
+// an operation that burns more than 5 s of CPU time is a hang: die with SIGVTALRM so that the check
+// attributes it to the case instead of waiting for a wall-clock timeout
+static void arm_watchdog() {
+    struct itimerval tv;
+    tv.it_interval.tv_sec = 0; tv.it_interval.tv_usec = 0;
+    tv.it_value.tv_sec = 5; tv.it_value.tv_usec = 0;
+    setitimer(ITIMER_VIRTUAL, &tv, nullptr);
+}
+
 int main(int argc, char** argv) {
     if (argc < 2 || std::string(argv[1]) != "run") { std::cerr << "usage: c09 run\n"; return 2; }
     std::string line;
     while (std::getline(std::cin, line)) {
+        arm_watchdog();
         auto t = vh::tokens(line);
         if (t.empty()) { vh::answer(""); continue; }
         if (t[0][0] == '#') { vh::answer(line); continue; }
